@@ -47,14 +47,25 @@ def worker(job):
         # OIDs: requested one, others, duplicates
         pool = [REQ, REQ + (1,), (1, 3, 6, 1, 4, 1, 5), M.gen_oid(rng)]
         vbs, model = [], []
+        prev = None
         for k in vec:
             o = rng.choice(pool) if len(vec) > 1 else rng.choice([REQ, M.gen_oid(rng)])
+            name = B.enc_oid(o)
+            if c.get("rel") and prev is not None and len(prev) > 3 and rng.random() < 0.65:
+                # the name as a RELATIVE-OID (the decoder's private extension): r trailing sub-identifiers that replace
+                # the last r sub-identifiers of the *preceding* varbind's (resolved) name; runs of several, longer
+                # and shorter ones in any order
+                r = rng.randint(1, len(prev) - 3)
+                tail = tuple(rng.choice([1, 2, 11, 127, 128, 16383, 16384, M.gen_arc(rng)]) for _ in range(r))
+                o = prev[:len(prev) - r] + tail
+                name = B.tlv(B.RELOID, b"".join(B.arc_b128(x) for x in tail))
+            prev = o
             if k == "real":
                 v = M.gen_value(rng, real_kinds)
-                vbs.append(B.enc_varbind(o, v["tlv"]))
+                vbs.append(B.enc_seq([name, v["tlv"]]))
                 model.append((B.oid_text(o), "real", v["py"]))
             else:
-                vbs.append(B.enc_varbind(o, TLV[k]))
+                vbs.append(B.enc_seq([name, TLV[k]]))
                 model.append((B.oid_text(o), k, None))
         st.update(mode="silent" if mode == "silent_burst" else mode, vbs=vbs)
 
@@ -95,7 +106,7 @@ def worker(job):
                 continue
             out = again[0] if not (again[0][0] == "exc" and again[0][1]["cls"] == "TimeoutError") else again[1]
         res["cases"] += 1
-        cls = "%s:%s:%s" % (op, mode, "".join(k[0] if k != "nsi" else "i" for k in vec) if len(vec) <= 4 else "len%d" % len(vec))
+        cls = "%s:%s%s:%s" % (op, mode, ":rel" if c.get("rel") else "", "".join(k[0] if k != "nsi" else "i" for k in vec) if len(vec) <= 4 else "len%d" % len(vec))
         res["classes"][cls] = 1
         if "agent_err" in st:
             res["inconclusive"].append("agent could not parse: %s" % st.pop("agent_err"))
@@ -165,7 +176,9 @@ def main():
                 "get: 0 -> None, 1 -> value | None for NULL | NoSuchInstance for the three exception values, >= 2 -> SnmpError; get_many: key "
                 "set == OIDs with a real-valued varbind, each value one of those sent for that OID; Report -> SnmpAuthError; silence -> "
                 "TimeoutError (never a bare BlockingIOError). distinct = (op, mode, kind-vector).")
-    chk.assumptions = ["for duplicate OIDs any tie-break among the real values is accepted"]
+    chk.assumptions = ["for duplicate OIDs any tie-break among the real values is accepted",
+                       "a varbind named by a RELATIVE-OID (private extension of the decoder) denotes the preceding varbind's name with its "
+                       "last r sub-identifiers replaced (r < arcs - 2), as the decoder's own comments define it"]
     rng = random.Random(a.seed)
     vecs = [list(v) for n in range(0, 5) for v in itertools.product(KINDS, repeat=n)]
     vecs += [[rng.choice(KINDS) for _ in range(rng.choice([5, 6]))] for _ in range(150 if a.tier == "quick" else 3000)]
@@ -173,6 +186,10 @@ def main():
     for op in ("get", "get_many"):
         for v in vecs:
             cases.append({"op": op, "mode": "ok", "vec": v})
+    # replies whose 2nd.. names are RELATIVE-OIDs (runs of 2..7 of them, mostly real-valued so that the keys are visible)
+    for _ in range(120 if a.tier == "quick" else 3000):
+        cases.append({"op": "get_many", "mode": "ok", "rel": True,
+                      "vec": [rng.choice(["real", "real", "real", rng.choice(KINDS)]) for _ in range(rng.choice([2, 3, 3, 4, 5, 8]))]})
     cfgs = rigp.base_cfgs(("sync", "async"))
     jobs = []
     for ci, cfg in enumerate(cfgs):
